@@ -19,6 +19,7 @@ import (
 	"testing"
 	"time"
 
+	"github.com/openbao/openbao/sdk/v2/helper/verif/sched"
 	"github.com/openbao/openbao/sdk/v2/helper/verif/vout"
 	"github.com/openbao/openbao/sdk/v2/logical"
 )
@@ -331,6 +332,10 @@ func TestVerifC05(t *testing.T) {
 			rec(nil)
 		}
 	}
+	// ---- B: the revocation retry budget under storage faults (c05r_test.go)
+	if only == "" || only == "B" {
+		c05rPart(t, res, &count)
+	}
 	// ---- K: crash inside renew / revoke of a secret lease and of a token
 	if only == "" || only == "K" {
 		for _, cred := range []c05Cred{c05Creds[0], c05Creds[5]} {
@@ -357,6 +362,7 @@ func TestVerifC05(t *testing.T) {
 					if !vout.Mine(count) {
 						continue
 					}
+					sched.ResetDetRand()
 					s, err := BootData(t, base.Data, base)
 					if err != nil {
 						t.Fatalf("harness: %v", err)
